@@ -8,6 +8,8 @@ package pool
 // Every value in Pool.Cache is a list node that is in no list, whose pool node has an open channel (sync.Pool invariant: established by
 // the New closure, required of every Put, assumed of every Get).
 //@ type Pool: pool Cache holds PoolNodeOK
+// lastUsed is stamped by the pool goroutine (freePoolNode) and read by the idle-worker reaper without any lock
+//@ type Node: atomic lastUsed
 //@ pred PoolNodeOK(v ref) := $typeof(v) == $tid(*linkedlist.Node[Node]) && $ptrof(v) != nil && $alloc($ptrof(v)) && NodeOK($as(*linkedlist.Node[Node], v))
 //@ pred NodeOK(n *linkedlist.Node[Node]) := n != nil && n.next == nil && n.prev == nil && n.Value.ch != nil && $open(n.Value.ch) && $cap(n.Value.ch) >= 1
 
